@@ -26,9 +26,13 @@ Driver for C19.  Strings travel as code points joined by `.` (`_` = empty string
       -> xml=<ok:str|ERR:forbidden|ERR:FODC0006> frag=<..> mustReject=<0|1>
   XMLT defuse=<0|1|D> declok=<0|1> text=<str>            (the gate on the characters: XmlText.scanProlog)
       -> xml=<..> frag=<..> forbidden=<0|1> parsed=<0|1>
+  XMLD defuse=<0|1|D> text=<str>     (phase 5: the XML declaration parsed exactly, XmlDecl.scanPrologX)
+      -> decl=<-|bad|V:ver,E:enc|-,S:y|n|-> gram=<0|1> expat=<0|1> rt=<0|1: spec render of the tree = body>
+         cls=<ok|wrong|multibyte|unknown|-> rawenc=<0|1: unusable declared encoding (F19e, fixed)> standalone=<0|1> xml=<..>
 -/
 import EPV.Proto
 import EPV.Spec.GlobalsSpec
+import EPV.Spec.GlobalsXmlDeclSpec
 import EPV.Gen.C19Defaults
 open EPV.Proto EPV.Globals
 
@@ -232,6 +236,34 @@ def answerXml (fs : List (String × String)) : String :=
     let df := flagOf (field fs "defuse") EPV.Gen.C19.defuseXmlDefault
     s!"xml={showX (parseXml df d)} frag={showX (parseXmlFragment df d)} mustReject={b01 (EPV.GlobalsSpec.mustReject d)}"
 
+def showCls : XmlDecl.EncClass → String
+  | .ok => "ok" | .wrong => "wrong" | .multibyte => "multibyte" | .unknown => "unknown"
+
+def answerXmlD (fs : List (String × String)) : String :=
+  match decStr (field fs "text") with
+  | none => "bad-text"
+  | some t =>
+    let df := flagOf (field fs "defuse") EPV.Gen.C19.defuseXmlDefault
+    let cs := t.toList
+    let pt := XmlDecl.scanPrologX cs
+    let head := XmlDecl.declOf cs
+    let decl := match head, pt.2 with
+      | none, _ => "-"
+      | some _, none => "bad"
+      | some _, some tr =>
+        let e := match tr.encoding with | some n => String.ofList n | none => "-"
+        let sd := match tr.standalone with | some true => "y" | some false => "n" | none => "-"
+        s!"V:{String.ofList tr.version},E:{e},S:{sd}"
+    let gram := match pt.2 with | some tr => EPV.GlobalsSpec.XmlDeclGrammar.grammatical tr | none => false
+    let ex := match pt.2 with | some tr => EPV.GlobalsSpec.XmlDeclGrammar.expatAccepts tr | none => false
+    let rt := match head, pt.2 with
+      | some (body, _), some tr => EPV.GlobalsSpec.XmlDeclGrammar.render tr == body
+      | _, _ => false
+    let cls := match pt.2 with
+      | some tr => (match tr.encoding with | some n => showCls (XmlDecl.encClass n) | none => "-")
+      | none => "-"
+    s!"decl={decl} gram={b01 gram} expat={b01 ex} rt={b01 rt} cls={cls} rawenc={b01 (XmlDecl.rawEncoding cs)} standalone={b01 pt.1.standalone} xml={showX (XmlDecl.parseXmlTextX df t)}"
+
 def answer (line : String) : String :=
   let l := line.trimAscii.toString
   let (cmd, rest) := match l.splitOn " " with
@@ -256,6 +288,7 @@ def answer (line : String) : String :=
   | "THR" => answerThr fs
   | "ENV" => answerEnv fs
   | "XML" => answerXml fs
+  | "XMLD" => answerXmlD fs
   | "XMLT" =>
     match decStr (field fs "text") with
     | none => "bad-text"
